@@ -15,9 +15,10 @@ import Driver.HStd
 import Driver.HStdNum
 import Driver.HMarks
 import Driver.HMsgpack
+import Driver.HJsonVal
 open CtyModel
 
-def handlers : List Handler := [handleTy, handleVal, handleNum, handleOps, handleFunc, handleSet, handleRefine, handleGocty, handleStd, handleStdNum, handleMarks, handleMsgpack]
+def handlers : List Handler := [handleTy, handleVal, handleNum, handleOps, handleFunc, handleSet, handleRefine, handleGocty, handleStd, handleStdNum, handleMarks, handleMsgpack, handleJsonVal]
 
 def handle (op : String) (args : List Sexp) : String :=
   match handlers.findSome? (fun h => h op args) with
